@@ -56,6 +56,53 @@ ViewChk(p, name, O, view) ==
        /\ PrintT(<<"ONLY-IN-IMPL", NormView(O, view) \ Interp(O, enc)>>)
        /\ FALSE
 
+(* ---- rich text: marks three ways, spans, cursors (C24, C25, C26) -------- *)
+HasRich(o) == "curs" \in DOMAIN o
+SpanCellsOf(o) ==
+  FlattenSeq([i \in DOMAIN o.spans |->
+     [j \in DOMAIN o.spans[i].toks |-> [t |-> o.spans[i].t, tok |-> o.spans[i].toks[j], marks |-> ToSet(o.spans[i].marks)]]])
+RichObjOK(O, o) ==
+  \A es \in {VisibleElems(O, o.id)} :
+  \A ws \in {SeqWidths(O, o.id, enc)} :
+  \A um \in {IF {"C24", "C25"} \cap CHECKS # {} THEN UnitMarks(O, o.id, enc) ELSE <<>>} :
+  \A runs \in {IF {"C24", "C25"} \cap CHECKS # {} THEN MarkRuns(um) ELSE {}} :
+  \A cells \in {IF {"C24", "C25"} \cap CHECKS # {} /\ o.ty = "text" THEN SpanCells(O, o.id) ELSE <<>>} :
+  LET obj == o.id
+      istext == o.ty = "text"
+  IN
+  /\ Chk("C24", "length-equals-width-of-the-string", istext => o.len = Width(enc, o.text))
+  /\ Chk("C24", "spans-concatenate-to-the-text", istext => FlattenSeq([i \in DOMAIN o.spans |-> o.spans[i].toks]) = o.text)
+  /\ Chk("C24", "mark-ranges-are-in-encoding-units", ToSet(o.marks) = runs)
+  /\ Chk("C24", "get-marks-index-is-in-encoding-units",
+         Len(o.mat) = Len(um) /\ \A u \in DOMAIN um : ToSet(o.mat[u]) = um[u])
+  /\ Chk("C25", "marks-equal-highest-id-mark-per-name", ToSet(o.marks) = runs)
+  /\ Chk("C25", "get-marks-agrees-with-marks",
+         Len(o.mat) = Len(um) /\ \A u \in DOMAIN um : ToSet(o.mat[u]) = um[u])
+  /\ Chk("C25", "spans-agree-with-marks", istext => SpanCellsOf(o) = cells)
+  /\ Chk("C24", "spans-agree-with-marks", istext => SpanCellsOf(o) = cells)
+  /\ Chk("C26", "start-and-end-cursors", o.cs = 0 /\ o.ce = o.len)
+  /\ Chk("C26", "cursor-round-trip",
+         Len(o.curs) = SumSeq(ws) /\
+         \A u \in DOMAIN o.curs :
+            LET at == ElemAtUnit(ws, u - 1, 1)
+                c == o.curs[u]
+            IN  at.start =>
+                  /\ c.ap = u - 1 /\ c.bp = u - 1 /\ c.art /\ c.brt
+                  /\ HasOp(O, c.a) /\ ElemOfOp(O, c.a) = es[at.i]
+                  /\ HasOp(O, c.b) /\ ElemOfOp(O, c.b) = es[at.i])
+  /\ Chk("C24", "cursor-positions-are-in-encoding-units",
+         Len(o.curs) = SumSeq(ws) /\
+         \A u \in DOMAIN o.curs :
+            LET at == ElemAtUnit(ws, u - 1, 1)
+                c == o.curs[u]
+            IN  at.start =>
+                  /\ c.ap = u - 1 /\ c.bp = u - 1 /\ c.art /\ c.brt
+                  /\ HasOp(O, c.a) /\ ElemOfOp(O, c.a) = es[at.i]
+                  /\ HasOp(O, c.b) /\ ElemOfOp(O, c.b) = es[at.i])
+
+RichOK(O, view) ==
+  \A i \in DOMAIN view : HasRich(view[i]) => RichObjOK(O, view[i])
+
 IsEv(k) == l <= Len(Rec) /\ E.ev = k /\ l' = l + 1
 
 Reset ==
@@ -69,8 +116,20 @@ Define(d, o, dp) ==
 HasView == "obs" \in DOMAIN E /\ "view" \in DOMAIN E.obs
 
 ObsOK(opsTab) ==
-  HasView => ViewChk("C02", "view-equals-interpretation-of-applied-ops",
-                     OpsOf(opsTab, S(E.obs.applied)), E.obs.view)
+  HasView => /\ ViewChk("C02", "view-equals-interpretation-of-applied-ops",
+                        OpsOf(opsTab, S(E.obs.applied)), E.obs.view)
+             /\ RichOK(OpsOf(opsTab, S(E.obs.applied)), E.obs.view)
+
+(* C25 expand rule: a transaction consisting of one pure insertion into a text object places its
+   first new element on the side of every mark boundary that the mark's expand flag asks for *)
+ExpandOK(opsTab) ==
+  (/\ Len(E.iso) = 0 /\ "calls" \in DOMAIN E /\ Len(E.calls) = 1
+   /\ E.calls[1].fn = "splice_text" /\ E.calls[1].res = "ok" /\ E.calls[1].del = 0
+   /\ Len(E.def.ops) >= 1 /\ HasView) =>
+     LET X == OpRec(E.def.ops[1])
+         Ob == OpsOf(opsTab, S(E.obs.applied) \ {E.hash})
+     IN  Chk("C25", "inserted-text-is-covered-as-the-expand-flags-say",
+             (X.insert /\ X.act = "set") => ExpandHolds(Ob, X.obj, X.elem))
 
 (* C29: inside transaction_at(H) the first read shows exactly the state at H; after the commit
    the document is the merge of the isolated change into the current state *)
@@ -81,12 +140,22 @@ IsoOK(opsTab) ==
      /\ (HasView => ViewChk("C29", "after-commit-document-is-merge-of-isolated-change",
                              OpsOf(opsTab, S(E.obs.applied)), E.obs.view))
 
+(* causality of the ops themselves: everything an op names (its object, the element it is keyed
+   on, its predecessors) was created by the change itself or by an ancestor of its dependencies *)
+RefsOK(d) ==
+  \A own \in {{OpRec(d.ops[i]) : i \in DOMAIN d.ops}} :
+  \A ids \in {{o.id : o \in OpsOf(ops, Anc(deps, S(d.deps)))} \cup {o.id : o \in own} \cup {ROOT}} :
+    \A o \in own : ({o.obj} \cup (IF o.ismap THEN {} ELSE {o.elem}) \cup o.pred) \subseteq ids
+
 Commit ==
   /\ IsEv("commit")
   /\ IF E.hash = "" THEN /\ ObsOK(ops) /\ UNCHANGED <<ops, deps>>
      ELSE /\ Define(E.def, ops, deps)
           /\ ObsOK(ops')
           /\ IsoOK(ops')
+          /\ ExpandOK(ops')
+          /\ Chk("C04", "ops-name-only-ancestors-of-the-dependencies", RefsOK(E.def))
+          /\ Chk("C29", "isolated-ops-name-only-ancestors-of-the-isolation-heads", Len(E.iso) > 0 => RefsOK(E.def))
   /\ UNCHANGED enc
 
 ChgDef ==
@@ -104,6 +173,7 @@ ReadAt ==
          A == Anc(deps, H)
          O == OpsOf(ops, A)
      IN  /\ ViewChk(HP, "view-at-heads-equals-interpretation-of-ancestors", O, E.view)
+         /\ RichOK(O, E.view)
          /\ Chk(HP, "fork-at-succeeds", "err" \notin DOMAIN E.fork)
          /\ ("err" \notin DOMAIN E.fork) =>
                /\ Chk(HP, "fork-at-heads-are-the-given-heads", S(E.fork.heads) = H)
@@ -112,15 +182,26 @@ ReadAt ==
                /\ Chk(HP, "read-at-equals-read-of-fork", E.fork.view = E.view)
   /\ UNCHANGED <<ops, deps, enc>>
 
+(* C26: cursors taken earlier, resolved now (heads = <<>>) or at historical heads *)
+Curs ==
+  /\ IsEv("curs")
+  /\ LET A == IF Len(E.heads) = 0 THEN S(E.obs.applied) ELSE Anc(deps, S(E.heads))
+         O == OpsOf(ops, A)
+     IN  \A i \in DOMAIN E.list :
+            LET c == E.list[i] IN
+            Chk("C26", "cursor-resolves-as-its-move-mode-specifies",
+                c.pos = CursorPos(O, c.obj, enc, c.id, c.mode))
+  /\ UNCHANGED <<ops, deps, enc>>
+
 Other ==
   /\ l <= Len(Rec)
-  /\ E.ev \notin {"reset", "commit", "chgdef", "readat"}
+  /\ E.ev \notin {"reset", "commit", "chgdef", "readat", "curs"}
   /\ l' = l + 1
   /\ ObsOK(ops)
   /\ UNCHANGED <<ops, deps, enc>>
 
 Init == l = 1 /\ ops = <<>> /\ deps = <<>> /\ enc = "cp"
-Next == Reset \/ Commit \/ ChgDef \/ ReadAt \/ Other
+Next == Reset \/ Commit \/ ChgDef \/ ReadAt \/ Curs \/ Other
 Spec == Init /\ [][Next]_vars
 
 Accepted ==
